@@ -189,6 +189,10 @@ type Method struct {
 	DefinedUnder   Namespace
 	Body           value.Method
 	location       *position.Location
+	// Set while the body of the method is being checked and only read when that body is compiled.
+	// Kept outside of Flags, because method bodies are checked concurrently
+	// and other bodies read the Flags of the methods they call.
+	hasDefer bool
 	// used to detect methods that circularly reference constants
 	UsedInConstants              ds.Set[value.Symbol] // set of constants in which this method is called
 	UsedConstants                ds.Set[value.Symbol] // set of constants references in this method's body
@@ -238,6 +242,7 @@ func (m *Method) Copy() *Method {
 		OptionalParamCount:           m.OptionalParamCount,
 		PostParamCount:               m.PostParamCount,
 		Flags:                        m.Flags,
+		hasDefer:                     m.hasDefer,
 		TypeParameters:               m.TypeParameters,
 		ReturnType:                   m.ReturnType,
 		ThrowType:                    m.ThrowType,
@@ -271,6 +276,7 @@ func (m *Method) DeepCopyEnv(oldEnv, newEnv *GlobalEnvironment) *Method {
 		OptionalParamCount:           m.OptionalParamCount,
 		PostParamCount:               m.PostParamCount,
 		Flags:                        m.Flags,
+		hasDefer:                     m.hasDefer,
 		Body:                         m.Body,
 		location:                     m.location,
 		UsedInConstants:              m.UsedInConstants,
@@ -454,11 +460,11 @@ func (m *Method) SetMacro(val bool) *Method {
 }
 
 func (m *Method) HasDefer() bool {
-	return m.Flags.HasFlag(METHOD_HAS_DEFER_FLAG)
+	return m.hasDefer
 }
 
 func (m *Method) SetHasDefer(val bool) *Method {
-	m.SetFlag(METHOD_HAS_DEFER_FLAG, val)
+	m.hasDefer = val
 	return m
 }
 
